@@ -3,8 +3,8 @@
 patch applies to the fixed tree, builds, adds no failing test to the pinned suite, and its
 demonstration passes without the change and fails with it. Prints one line per mutant."""
 import json, os, re, subprocess, sys
-WT = "/var/tmp/repo-mut"
-BASE = os.environ.get("BASE", "stage")
+WT = os.environ.get("WT", "/var/tmp/repo-mut")
+BASE = os.environ.get("BASE", "main")
 env = dict(os.environ, GOFLAGS="-mod=mod", GOPROXY="off")
 env.pop("GOSUMDB", None)
 
@@ -28,7 +28,7 @@ def failing():
                 st[ev["Package"].replace("github.com/ohler55/slip/", "") + "::" + ev["Test"]] = ev["Action"]
     return {k for k, v in st.items() if v == "fail"}, set(st)
 
-base_cache = "/var/tmp/mutant-baseline.json"
+base_cache = os.environ.get("BASE_CACHE", "/var/tmp/mutant-baseline.json")
 def baseline():
     head = sh("git rev-parse HEAD")[1].strip()
     if os.path.exists(base_cache):
@@ -51,13 +51,13 @@ def main():
         m = re.search(r"cp\s+\S*demo_test\.go\s+(\S+)", md)
         dest = m.group(1) if m else None
         if dest:
-            dest = re.sub(r"^/tmp/mut2?-C\d+/", "", dest)
+            dest = re.sub(r"^/tmp/mut\d?-C\d+/", "", dest)
             dest = re.sub(r"^<worktree>/|^\$WT/|^\$W/|^\./", "", dest)
             if dest.endswith("/"): dest += "zz_seeded_demo_test.go"
         m = re.search(r"(go test [^\n]*-run[^\n]*)", md) or re.search(r"(go test [^\n]*\./test/\S+)", md)
         cmd = m.group(1).strip() if m else None
         if cmd:
-            cmd = re.sub(r"/tmp/mut2?-C\d+", WT, cmd).split("|")[0].split("#")[0].strip()
+            cmd = re.sub(r"/tmp/mut\d?-C\d+", WT, cmd).split("|")[0].split("#")[0].strip()
         res = {"dir": d}
         if not dest or not cmd:
             print(f"{d}: CANNOT PARSE demo.md (dest={dest} cmd={cmd})"); continue
